@@ -712,7 +712,8 @@ def fn_inserts(u, m, d, it, info, used_fns, probe_fn):
             pos = it["body_start"] + (a if where == "before" else z)
         ins.append((pos, -1 if where == "before" else 0, ptxt, ("spec", fs.specfile, first - 2, full, fs.props)))
         for lineno, t in sec:
-            if re.match(r"\s*assert\b", t):
+            if re.match(r"\s*assert\b", t) or (mac == "proof!" and re.match(r"\s*(if \w+ \{ )?[\w:]+::lemma_\w+\(", t)):
+                # asserts, and lemma calls (whose preconditions are obligations of their own)
                 info["clauses"].append({"file": fs.specfile, "fn": full, "spec_line": lineno, "text": t.strip(), "props": clause_props(t, fs.props), "where": "proof"})
             elif mac is None and "verus_spec(" in t:
                 # a contract woven onto a closure (%raw): its own clause, with the function's properties unless tagged
